@@ -24,7 +24,15 @@
 From Coq Require Import List Arith Bool PeanoNat.
 Import ListNotations.
 
-Inductive scope := PerTaskObject | PerExecution.
+(* where the DeterministicExecutor is kept:
+   PerTaskObject    on the WorkflowContext that Task.wf caches per Task object;
+   PerExecution     on the running invocation object, reset by every run of the body;
+   PerInvocationKey in a container of the process (an attribute of the context, a module-level or
+                    class-level dict, also a weak one) keyed by the invocation id or by the invocation
+                    object, which hashes and compares by id: every attempt of that invocation in the
+                    process image finds the entry while it is there (for a weak container: while an
+                    object of an earlier attempt is still referenced, as a runner's thread table does) *)
+Inductive scope := PerTaskObject | PerExecution | PerInvocationKey.
 
 (* facts regenerated from the source on every run (gen/Workflow_gen.v : gen_cfg) *)
 Record cfg := {
@@ -33,7 +41,9 @@ Record cfg := {
   c_task_key_call : bool;   (* execute_task record key contains the call identity *)
   c_seq_offset : nat;       (* generator sequence = recorded sequence + offset *)
   c_replay_uncond : bool;   (* execute_task returns the recorded invocation unconditionally *)
-  c_gen_private : bool      (* the value generators keep no state outside their own call *)
+  c_gen_private : bool;     (* the value generators keep no state outside their own call *)
+  c_exec_private : bool     (* execute_task keeps no state outside the workflow data (no process-wide
+                               container of resolved invocations) *)
 }.
 
 Inductive opk := Rnd | Tim | Uid.
@@ -101,15 +111,16 @@ Definition out := (nat * op * value)%type.          (* execution, operation, ret
 Record side := {
   rejected : list nat;                         (* launched invocations a guarded replay does not accept *)
   gen_reg : list (nat * (value * bool));       (* process image -> shared generator: prepared for, not drawn yet *)
-  seeded : list nat                            (* executions pre-empted between preparing and drawing *)
+  seeded : list nat;                           (* executions pre-empted between preparing and drawing *)
+  resolved : list ((nat * nat) * value)        (* (process image, call) -> invocation in a process-wide cache *)
 }.
-Definition side0 : side := {| rejected := []; gen_reg := []; seeded := [] |}.
+Definition side0 : side := {| rejected := []; gen_reg := []; seeded := []; resolved := [] |}.
 
 Record world := {
   store : list (skey * value);                 (* workflow data, newest binding first *)
   clock : nat;                                 (* number of clock readings so far *)
   next_inv : nat;                              (* number of invocations launched so far *)
-  caches : list ((nat * nat) * executor);      (* PerTaskObject: (process, task object) -> executor *)
+  caches : list ((nat * nat) * executor);      (* (process, task object) / (process, invocation) -> executor *)
   exes : list (nat * exe);
   launches : list (nat * nat * nat);           (* (workflow of the launching invocation, call, inv) *)
   outs : list out;                             (* chronological *)
@@ -130,6 +141,11 @@ Definition get_x (c : cfg) (W : world) (ex : exe) : executor :=
   | PerExecution => e_x ex
   | PerTaskObject =>
       match ptlookup (e_proc ex, e_task ex) (caches W) with
+      | Some x => x
+      | None => new_x (e_wf ex)
+      end
+  | PerInvocationKey =>            (* the workflow id is the id of the invocation whose body runs *)
+      match ptlookup (e_proc ex, e_wf ex) (caches W) with
       | Some x => x
       | None => new_x (e_wf ex)
       end
@@ -222,13 +238,14 @@ Definition side_after_det (c : cfg) (W : world) (e p : nat) (x : executor) (k : 
   else
     let sd := aux W in
     match slookup (x_wf x, KOp k (S (cnt k x))) (store W) with
-    | Some _ => {| rejected := rejected sd; gen_reg := gen_reg sd; seeded := unseed e (seeded sd) |}
+    | Some _ => {| rejected := rejected sd; gen_reg := gen_reg sd; seeded := unseed e (seeded sd);
+                   resolved := resolved sd |}
     | None =>
         let s := if is_seeded W e
                  then match nlookup p (gen_reg sd) with Some (s, _) => s | None => v end
                  else v in
         {| rejected := rejected sd; gen_reg := (p, (s, false)) :: gen_reg sd;
-           seeded := unseed e (seeded sd) |}
+           seeded := unseed e (seeded sd); resolved := resolved sd |}
     end.
 
 Definition task_key (c : cfg) (call : nat) : key := KTask (if c_task_key_call c then call else 0).
@@ -253,11 +270,26 @@ Definition exec_op (c : cfg) (W : world) (x : executor) (actual_wf call : nat) :
   | None => launch
   end.
 
+(* execute_task behind a process-wide cache of resolved invocations keyed by the call only (only when
+   c_exec_private is false): a hit returns the cached invocation, nothing is looked up, launched or recorded *)
+Definition exec_op_cached (c : cfg) (W : world) (x : executor) (p actual_wf call : nat) : eff :=
+  match ptlookup (p, call) (resolved (aux W)) with
+  | Some v => {| f_store := store W; f_clock := clock W; f_next := next_inv W;
+                 f_launch := launches W; f_val := v; f_x := x |}
+  | None => exec_op c W x actual_wf call
+  end.
+
+Definition side_after_exec (c : cfg) (W : world) (p call : nat) (v : value) : side :=
+  if c_exec_private c then aux W
+  else {| rejected := rejected (aux W); gen_reg := gen_reg (aux W); seeded := seeded (aux W);
+          resolved := ((p, call), v) :: resolved (aux W) |}.
+
 Definition put_x (c : cfg) (W : world) (e : nat) (ex : exe) (x : executor)
   : list ((nat * nat) * executor) * list (nat * exe) :=
   match c_scope c with
   | PerExecution => (caches W, (e, set_e_x ex x) :: exes W)
   | PerTaskObject => (((e_proc ex, e_task ex), x) :: caches W, exes W)
+  | PerInvocationKey => (((e_proc ex, e_wf ex), x) :: caches W, exes W)
   end.
 
 Definition set_aux (W : world) (sd : side) : world :=
@@ -281,11 +313,12 @@ Definition step (c : cfg) (W : world) (ev : event) : world :=
           let x := get_x c W ex in
           let f := match o with
                    | ODet k => det_op_with c W x k (draw c W e (e_proc ex))
-                   | OExec call => exec_op c W x (e_wf ex) call
+                   | OExec call => if c_exec_private c then exec_op c W x (e_wf ex) call
+                                   else exec_op_cached c W x (e_proc ex) (e_wf ex) call
                    end in
           let sd := match o with
                     | ODet k => side_after_det c W e (e_proc ex) x k (f_val f)
-                    | OExec _ => aux W
+                    | OExec call => side_after_exec c W (e_proc ex) call (f_val f)
                     end in
           let '(ca, es) := put_x c W e ex (f_x f) in
           {| store := f_store f; clock := f_clock f; next_inv := f_next f; caches := ca;
@@ -295,7 +328,7 @@ Definition step (c : cfg) (W : world) (ev : event) : world :=
       match slookup (w, task_key c call) (store W) with
       | Some (VInv i) =>
           set_aux W {| rejected := i :: rejected (aux W); gen_reg := gen_reg (aux W);
-                       seeded := seeded (aux W) |}
+                       seeded := seeded (aux W); resolved := resolved (aux W) |}
       | _ => W
       end
   | ESeed e k =>
@@ -309,7 +342,7 @@ Definition step (c : cfg) (W : world) (ev : event) : world :=
             | Some s =>
                 set_aux W {| rejected := rejected (aux W);
                              gen_reg := (e_proc ex, (s, true)) :: gen_reg (aux W);
-                             seeded := e :: seeded (aux W) |}
+                             seeded := e :: seeded (aux W); resolved := resolved (aux W) |}
             end
         end
   end.
@@ -360,15 +393,21 @@ Definition render (W : world) : list (list (list nat)) :=
 Definition with_scope (c : cfg) (s : scope) : cfg :=
   {| c_scope := s; c_seed_wf := c_seed_wf c; c_task_key_call := c_task_key_call c;
      c_seq_offset := c_seq_offset c; c_replay_uncond := c_replay_uncond c;
-     c_gen_private := c_gen_private c |}.
+     c_gen_private := c_gen_private c; c_exec_private := c_exec_private c |}.
 
 (* the configuration with a guarded replay branch in execute_task / with a shared value generator *)
 Definition with_guarded_replay (c : cfg) : cfg :=
   {| c_scope := c_scope c; c_seed_wf := c_seed_wf c; c_task_key_call := c_task_key_call c;
-     c_seq_offset := c_seq_offset c; c_replay_uncond := false; c_gen_private := c_gen_private c |}.
+     c_seq_offset := c_seq_offset c; c_replay_uncond := false; c_gen_private := c_gen_private c;
+     c_exec_private := c_exec_private c |}.
 Definition with_shared_generator (c : cfg) : cfg :=
   {| c_scope := c_scope c; c_seed_wf := c_seed_wf c; c_task_key_call := c_task_key_call c;
-     c_seq_offset := c_seq_offset c; c_replay_uncond := c_replay_uncond c; c_gen_private := false |}.
+     c_seq_offset := c_seq_offset c; c_replay_uncond := c_replay_uncond c; c_gen_private := false;
+     c_exec_private := c_exec_private c |}.
+Definition with_shared_subtask_cache (c : cfg) : cfg :=
+  {| c_scope := c_scope c; c_seed_wf := c_seed_wf c; c_task_key_call := c_task_key_call c;
+     c_seq_offset := c_seq_offset c; c_replay_uncond := c_replay_uncond c;
+     c_gen_private := c_gen_private c; c_exec_private := false |}.
 
 (* ---------------------------------------------------------------- the property, at full strength *)
 (* "the n-th deterministic random number, timestamp or UUID requested by a task is the same every
